@@ -7,13 +7,11 @@ package main
 // log of pkg/extractor/verif_trace.go recording, and writes the log to the file named by RARE_VERIF_TRACE.
 // The aggregator is the real MatchCounter behind a wrapper that logs every Sample; the render callback is
 // the histogram's, bracketed by render.begin (matched total, sum of the displayed counts) / render.end.
-// RARE_VERIF_TICK_US, when set, is the period of the render ticker (hook verifTick).
 
 import (
 	"encoding/hex"
 	"fmt"
 	"os"
-	"strconv"
 	"time"
 
 	"rare/cmd/helpers"
@@ -56,9 +54,6 @@ func verifTraceAction(c *cli.Context) error {
 	out := os.Getenv("RARE_VERIF_TRACE")
 	if out == "" {
 		return cli.Exit("RARE_VERIF_TRACE not set", helpers.ExitCodeInvalidUsage)
-	}
-	if us, err := strconv.Atoi(os.Getenv("RARE_VERIF_TICK_US")); err == nil && us > 0 {
-		helpers.VerifSetTick(time.Duration(us) * time.Microsecond)
 	}
 	extractor.VerifTraceStart()
 
